@@ -19,10 +19,10 @@ var dmSizes = []dmSize{
 	{88, 4, 224, 4}, {96, 4, 272, 4}, {104, 4, 336, 6}, {120, 6, 408, 6}, {132, 6, 496, 8}, {144, 6, 620, 10},
 }
 
-func (s dmSize) mapping() int  { return s.Size - 2*s.Regions }
-func (s dmSize) DataCW() int   { return s.mapping()*s.mapping()/8 - s.ECC }
-func (s dmSize) TotalCW() int  { return s.mapping() * s.mapping() / 8 }
-func (s dmSize) region() int   { return s.mapping() / s.Regions }
+func (s dmSize) mapping() int { return s.Size - 2*s.Regions }
+func (s dmSize) DataCW() int  { return s.mapping()*s.mapping()/8 - s.ECC }
+func (s dmSize) TotalCW() int { return s.mapping() * s.mapping() / 8 }
+func (s dmSize) region() int  { return s.mapping() / s.Regions }
 
 // DMSmallestSize returns the side length of the smallest square symbol holding n data
 // codewords (0 if none).
